@@ -36,6 +36,29 @@ var c13SeqPrefixes = []string{"s", "s", "q/x", "", "__oxia/s", "a", "s-+", "__ox
 var c13Deltas = []uint64{0, 1, 1, 2, 3, math.MaxUint64, math.MaxUint64 - 1, 1 << 63, 10000000000000000000}
 var c13UserNoSlash = []string{"a", "b", "c", "d", "s", "s-+", "s--", "s-00000000000000000001x", "s-7", "t", "zz", "A", "0", "-", "_", "__oxia", "a b", "\xffz", "k\x01x"}
 
+// Keys NEAR the internal prefix, for every key / bound position: first segments around "__oxia" in the byte order
+// (a byte below '/', '/' itself, bytes above it, shorter and longer strings), with and without '/' and sub-segments.
+// A validation that compares whole strings instead of first segments differs exactly here: "__oxia-tmp/" < "__oxia/"
+// as strings, but in the key order the range ["a", "__oxia-tmp/") contains every internal key.
+var c13NearSegments = []string{"__oxia", "__oxi", "__oxia-", "__oxia.", "__oxia+x", "__oxia ", "__oxia0", "__oxib", "__oxia-tmp", "_", "__",
+	"__oxia%", "__oxia\x00", "__oxia~", "__oxiA", "__oxh\xff"}
+var c13NearForms = []string{"", "/", "/x", "/notifications/", "//", "/\xff"}
+
+func c13NearKeys() []string {
+	var ks []string
+	for _, seg := range c13NearSegments {
+		for _, f := range c13NearForms {
+			ks = append(ks, seg+f)
+		}
+	}
+	for b := 0; b <= 0x30; b++ { // every byte up to '0' right after "__oxia"
+		ks = append(ks, "__oxia"+string([]byte{byte(b)}), "__oxia"+string([]byte{byte(b)})+"/", "__oxia"+string([]byte{byte(b)})+"/z")
+	}
+	return ks
+}
+
+var c13Near = c13NearKeys()
+
 // c13Request draws one request. level: 0 = any field value (hostile), 1 = well-formed user request that
 // may still hit state-dependent behaviour (sequence arity, odd suffixes), 2 = plain user request.
 func c13Request(rng *hx.Rng, level int, allowEmptyRange bool) *wreq {
@@ -49,6 +72,8 @@ func c13Request(rng *hx.Rng, level int, allowEmptyRange bool) *wreq {
 			return hx.Pick(rng, userKeys)
 		case rng.Chance(30):
 			return hx.Pick(rng, userKeys)
+		case rng.Chance(30):
+			return hx.Pick(rng, c13Near)
 		}
 		return hx.Pick(rng, hostileKeys)
 	}
@@ -103,6 +128,13 @@ func c13Request(rng *hx.Rng, level int, allowEmptyRange bool) *wreq {
 		a, b := hk(), hk()
 		if level == 0 && rng.Chance(25) {
 			a, b = hx.Pick(rng, []string{"A/", "", "a", "__oxia/notifications/", "0/"}), hx.Pick(rng, []string{"z/", "zz/", "__oxia/notifications0", "__oxia/", "~/x"})
+		}
+		if level == 0 && rng.Chance(30) {
+			// a user-looking start with an end (or start) next to the internal prefix
+			a, b = hx.Pick(rng, []string{"a", "", "A/", "0/", "__oxi/", hx.Pick(rng, c13Near)}), hx.Pick(rng, c13Near)
+			if rng.Chance(20) {
+				a, b = b, hx.Pick(rng, []string{"z/", "zz/", "~/x", "__oxib/", "a"})
+			}
 		}
 		if level == 0 && rng.Chance(8) {
 			a, b = "", ""
@@ -218,5 +250,23 @@ func c13DbMain(o *hx.Out, f hx.Flags) {
 		w := c13Request(rng, rng.Intn(3), true)
 		w.offset, w.ts = int64(i), 7
 		c13RunVal(o, w.String())
+	}
+	// ... and swept around the internal prefix: every near key as put key, delete key, range start and range end
+	// (against a fixed set of opposite bounds), and all pairs of the core near keys
+	opposite := []string{"", "a", "A/", "z/", "zz", "__oxia/", "__oxia/z", "__oxi/", "__oxib/", "~/x"}
+	for _, k := range c13Near {
+		c13RunVal(o, (&wreq{puts: []putOp{{key: k, value: []byte("v")}}}).String())
+		c13RunVal(o, (&wreq{dels: []delOp{{key: k}}}).String())
+		c13RunVal(o, (&wreq{puts: []putOp{{key: k, value: []byte("v"), part: pstr("p"), deltas: []uint64{1}}}}).String())
+		for _, x := range opposite {
+			c13RunVal(o, (&wreq{ranges: []rangeOp{{x, k}}}).String())
+			c13RunVal(o, (&wreq{ranges: []rangeOp{{k, x}}}).String())
+		}
+	}
+	core := c13Near[:len(c13NearSegments)*len(c13NearForms)]
+	for i := 0; i < 40*f.N/100+1; i++ { // a sample of the pairs, growing with -n
+		for j := 0; j < 25; j++ {
+			c13RunVal(o, (&wreq{ranges: []rangeOp{{hx.Pick(rng, core), hx.Pick(rng, core)}}}).String())
+		}
 	}
 }
